@@ -41,7 +41,7 @@ theorem buildMessage_linv {s : State} (ticket : Nat) (tx : Tx) (size : Nat)
     split
     · next hsb =>
       refine ⟨?_, ?_, rfl, ⟨_, getLast?_append_singleton _ _⟩, rfl⟩
-      · refine ⟨⟨h.1.ainv, h.1.pend, h.1.nodupW, h.1.fresh, h.1.nofail, h.1.wsize⟩, ?_⟩
+      · refine ⟨⟨h.1.ainv, h.1.pend, h.1.nodupW, h.1.fresh, h.1.wsize⟩, ?_⟩
         show tot s.alloc s.peer = hb (s.builders ++ [{ topic := s.nextTopic }]) + heldInFlight s + size + _
         rw [hb_append]
         have : hb [({ topic := s.nextTopic } : Builder)] = 0 := rfl
@@ -68,7 +68,7 @@ theorem buildMessage_linv {s : State} (ticket : Nat) (tx : Tx) (size : Nat)
   have l1 : Led s1 (hb s0.builders + heldInFlight s0 + size) := by
     subst hs1
     have : Led ({ s0 with builders := setLast s0.builders b' } : State) (hb s0.builders + heldInFlight s0 + size) :=
-      ⟨⟨l0.1.ainv, l0.1.pend, l0.1.nodupW, l0.1.fresh, l0.1.nofail, l0.1.wsize⟩, l0.2⟩
+      ⟨⟨l0.1.ainv, l0.1.pend, l0.1.nodupW, l0.1.fresh, l0.1.wsize⟩, l0.2⟩
     exact this.frame (emit_frame _ _)
   have b1 : ∀ x ∈ s1.builders, BInv x := by
     rw [hs1b]; intro x hx
@@ -116,7 +116,23 @@ theorem buildMessage_linv {s : State} (ticket : Nat) (tx : Tx) (size : Nat)
   obtain ⟨k1, k2⟩ := key s2 hs2.symm
   split
   · refine ⟨⟨?_, k1.binv⟩, k2⟩
-    exact ⟨⟨k1.led.1.ainv, k1.led.1.pend, k1.led.1.nodupW, k1.led.1.fresh, k1.led.1.nofail, k1.led.1.wsize⟩, k1.led.2⟩
+    exact ⟨⟨k1.led.1.ainv, k1.led.1.pend, k1.led.1.nodupW, k1.led.1.fresh, k1.led.1.wsize⟩, k1.led.2⟩
+  · exact ⟨k1, k2⟩
+
+/-- `buildMessage` as seen by callers: on a closed queue the message is failed at once -/
+theorem buildMsg_linv {s : State} (ticket : Nat) (tx : Tx) (size : Nat)
+    (h : Led s (hb s.builders + heldInFlight s + size)) (hbi : ∀ b ∈ s.builders, BInv b)
+    (hsz : (tx.who = .response → size = itemsSize tx.items) ∧ (tx.who = .request → size = 0)) :
+    LInv (s.buildMsg pick ticket tx size) ∧ (s.buildMsg pick ticket tx size).pc = s.pc := by
+  obtain ⟨k1, k2⟩ := buildMessage_linv hp ticket tx size h hbi hsz
+  unfold State.buildMsg
+  split
+  · next hc =>
+    have hif : heldInFlight (s.buildMessage pick ticket tx size) = 0 :=
+      heldInFlight_closed (by rw [closed_pc k2]; exact hc)
+    obtain ⟨d1, d2, d3⟩ := drain_led hp 1 _ (by have := k1.led; rwa [hif, Nat.add_zero] at this) k1.binv
+    refine ⟨⟨?_, d2⟩, d3.trans k2⟩
+    rw [heldInFlight_pc d3, hif, Nat.add_zero]; exact d1
   · exact ⟨k1, k2⟩
 
 omit hp in
@@ -131,11 +147,26 @@ theorem grantedBytes_append (a b : List Waiter) : grantedBytes (a ++ b) = grante
 def buildWith (pick : Pick) (s : State) (tx : Tx) (size : Nat) : State :=
   let ticket := s.nextTicket
   let s := { s with nextTicket := ticket + 1 }
-  if size == 0 then s.buildMessage pick ticket tx 0
+  if size == 0 then s.buildMsg pick ticket tx 0
   else
     let (s, evs) := s.allocStep pick (.alloc s.peer size ticket)
-    if evs.contains (.granted s.peer ticket size) then s.buildMessage pick ticket tx size
+    if evs.contains (.granted s.peer ticket size) then s.buildMsg pick ticket tx size
     else { s with waiters := s.waiters ++ [{ ticket, tx, size }] }
+
+omit hp in
+/-- `AllocateAndBuildMessage` as it was BEFORE the fix (no `closed` check: the transaction is queued
+    on a builder nobody will ever extract) -/
+def buildOld (pick : Pick) (s : State) (tx : Tx) : State :=
+  if tx.who == .response && s.closedStreams.contains tx.req then s
+  else
+    let size := match tx.who with | .response => itemsSize tx.items | .request => 0
+    let ticket := s.nextTicket
+    let s := { s with nextTicket := ticket + 1 }
+    if size == 0 then s.buildMessage pick ticket tx 0
+    else
+      let (s, evs) := s.allocStep pick (.alloc s.peer size ticket)
+      if evs.contains (.granted s.peer ticket size) then s.buildMessage pick ticket tx size
+      else { s with waiters := s.waiters ++ [{ ticket, tx, size }] }
 
 omit hp in
 theorem build_eq (s : State) (tx : Tx) :
@@ -147,13 +178,13 @@ theorem buildWith_linv {s : State} (h : LInv s) (tx : Tx) (size : Nat)
     LInv (buildWith pick s tx size) ∧ (buildWith pick s tx size).pc = s.pc := by
   have c0 : Coupled ({ s with nextTicket := s.nextTicket + 1 } : State) :=
     ⟨h.led.1.ainv, h.led.1.pend, h.led.1.nodupW, fun w hw => Nat.lt_succ_of_lt (h.led.1.fresh w hw),
-      h.led.1.nofail, h.led.1.wsize⟩
+      h.led.1.wsize⟩
   unfold buildWith
   simp only
   by_cases hz : size = 0
   · subst hz
     simp only [beq_self_eq_true, if_true]
-    apply buildMessage_linv hp
+    apply buildMsg_linv hp
     · exact ⟨c0, by have := h.led.2; rw [Nat.add_zero]; exact this⟩
     · exact h.binv
     · exact hsz
@@ -184,16 +215,14 @@ theorem buildWith_linv {s : State} (h : LInv s) (tx : Tx) (size : Nat)
       rw [if_pos (by
         show ([Alloc.Event.granted s.peer s.nextTicket size].contains (Alloc.Event.granted s.peer s.nextTicket size)) = true
         simp)]
-      apply buildMessage_linv hp
-      · refine ⟨⟨hv.inv, ?_, ?_, ?_, ?_, ?_⟩, ?_⟩
+      apply buildMsg_linv hp
+      · refine ⟨⟨hv.inv, ?_, ?_, ?_, ?_⟩, ?_⟩
         · show pendTA (Alloc.step pick s.alloc _).1 s.peer = unanswered (answerWaiters s.peer s.waiters _)
           rw [hws, hpd]; exact h.led.1.pend
         · show ((answerWaiters s.peer s.waiters _).map (·.ticket)).Nodup
           rw [hws]; exact h.led.1.nodupW
         · show ∀ w ∈ answerWaiters s.peer s.waiters _, w.ticket < s.nextTicket + 1
           rw [hws]; exact c0.fresh
-        · show ∀ w ∈ answerWaiters s.peer s.waiters _, w.answer ≠ some false
-          rw [hws]; exact h.led.1.nofail
         · show ∀ w ∈ answerWaiters s.peer s.waiters _, _
           rw [hws]; exact h.led.1.wsize
         · show tot (Alloc.step pick s.alloc _).1 s.peer = hb s.builders + heldInFlight s + size + grantedBytes (answerWaiters s.peer s.waiters _)
@@ -213,7 +242,7 @@ theorem buildWith_linv {s : State} (h : LInv s) (tx : Tx) (size : Nat)
           = [] := hev
       rw [hc]
       rw [if_neg (by simp)]
-      refine ⟨⟨⟨⟨hv.inv, ?_, ?_, ?_, ?_, ?_⟩, ?_⟩, h.binv⟩, rfl⟩
+      refine ⟨⟨⟨⟨hv.inv, ?_, ?_, ?_, ?_⟩, ?_⟩, h.binv⟩, rfl⟩
       · show pendTA (Alloc.step pick s.alloc _).1 s.peer = unanswered (answerWaiters s.peer s.waiters _ ++ [_])
         rw [hws, hpd, unanswered_append, h.led.1.pend]; rfl
       · show ((answerWaiters s.peer s.waiters _ ++ [_]).map (fun w : Waiter => w.ticket)).Nodup
@@ -227,11 +256,6 @@ theorem buildWith_linv {s : State} (h : LInv s) (tx : Tx) (size : Nat)
         rcases List.mem_append.mp hw with hw | hw
         · exact c0.fresh w hw
         · simp at hw; subst hw; exact Nat.lt_succ_self _
-      · show ∀ w ∈ answerWaiters s.peer s.waiters _ ++ [_], w.answer ≠ some false
-        rw [hws]; intro w hw
-        rcases List.mem_append.mp hw with hw | hw
-        · exact h.led.1.nofail w hw
-        · simp at hw; subst hw; simp
       · show ∀ w ∈ answerWaiters s.peer s.waiters _ ++ [_], _
         rw [hws]; intro w hw
         rcases List.mem_append.mp hw with hw | hw
